@@ -289,6 +289,10 @@ func c03wLokiEntry(rng *h.Rng, entriesLayout bool, c *c03wCase) (string, c03ExpE
 			switch rng.Intn(3) {
 			case 0:
 				txt, ok, bits := c03wNumText(rng)
+				if c.bad(rng, 10) { // not JSON numbers at all: jx itself rejects them
+					txt, ok = h.Pick(rng, []string{"01", "1.", ".5", "+1", "1e", "0x10", "-", "1.5.2", "00"}), false
+					c.tag("not-a-json-number")
+				}
 				items = append(items, txt)
 				if ok {
 					e.Val, e.Tp = bits, 0
